@@ -246,6 +246,31 @@ class Facts:
     def with_closures(self, key):
         return [key] + self.closures_of(key)
 
+    def captured(self, ck, place):
+        """`place` (a MIR place of closure `ck`) reads a captured variable: -> (body that builds the closure, operand captured there), else None.
+        Name-free: the i-th field of the closure environment (_1) is the i-th operand of the closure aggregate in the builder."""
+        if "::{closure" not in ck or place is None or place.get("l") != 1:
+            return None
+        fs = [e for e in place["pr"] if e[0] == "f"]
+        if not fs or len(fs[0]) < 5 or fs[0][4] is None:
+            return None
+        idx = fs[0][4]
+        owner = ck.rsplit("::{closure", 1)[0]
+        cands = [owner] + [k for k in self.with_closures(owner.split("::{closure")[0]) if k != owner]
+        # a closure of a transparent (new) helper is built inside whatever the helper was inlined into
+        if self.new_fns and owner.split("::{closure")[0] in self.new_fns:
+            cands += [k for k in self.fns if "::{closure" not in k and k not in self.new_fns and owner.split("::{closure")[0] in self.transparent_callees(k)]
+        for pk in cands:
+            if pk not in self.fns or not self.fns[pk].get("mir"):
+                continue
+            pb = self.body(pk)
+            for _bi, _si, st in pb.stmts():
+                if st["k"] == "assign" and st["rv"].get("closure") == ck:
+                    ops = st["rv"].get("ops") or []
+                    if idx < len(ops):
+                        return pb, ops[idx]
+        return None
+
     def variants(self, adt_key):
         return [v["name"] for v in self.adt(adt_key)["variants"]]
 
